@@ -22,8 +22,8 @@ void gen_writer_cfg(Plan &p, Rng &r, bool allow_pool, bool allow_wfrag, bool all
 	p.seti("comp", r.below(6));
 	static const int levels[] = { -1000000, -2, -1, 0, 1, 3, 6, 9, 12, 19, 22, 1000 };
 	p.set("level", r.chance(1, 2) ? "def" : std::to_string(levels[r.below(12)]));
-	static const int bs[] = { 0, 1, 512, 1024, 1100, 1500, 2048, 4096, 8192, 65536 };
-	p.seti("bsize", r.chance(3, 5) ? 1024 : bs[r.below(10)]);
+	static const int bs[] = { 0, 1, 512, 1024, 1100, 1500, 2048, 4096, 8192, 65536, 131072, 262144 };
+	p.seti("bsize", r.chance(3, 5) ? 1024 : bs[r.below(12)]);
 	p.set("bsize_set", r.chance(9, 10) ? "1" : "0");	// 0: leave the option at its default (8192)
 	p.seti("rint", r.chance(7, 10) ? 1 + r.below(6) : r.chance(1, 2) ? 16 : 7 + r.below(34));
 	p.seti("pool", allow_pool && r.chance(1, 2) ? (long long)r.below(5) : -1);
